@@ -198,3 +198,40 @@ def ordered_output_rule(crate, prop, rule="C05.R4"):
     r2.instances = r1.instances + r2.instances
     r2.findings = r1.findings + r2.findings
     return r2
+
+
+def dedup_key_rule(syn, prop, rule="C13.R6"):
+    """`T::dependencies()` is in the visit order of the derive's hash set.  generate_imports() collects it into a BTreeMap
+    (last insertion wins on equal keys), then reads fields of the surviving values.  The result is independent of the order
+    only if equal keys imply equal values as far as those fields go: every field read later must be part of the key."""
+    from vlib import synlib as S
+    r = Result(rule, "in generate_imports() the key under which dependencies are de-duplicated contains every field of a Dependency that the import loop reads afterwards, so that which of two entries with equal keys survives (it depends on the visit order of the derive's hash set) cannot change the output")
+    fn = syn.fn("export::generate_imports", "export.rs") or syn.fn("generate_imports", "export.rs")
+    if fn is None:
+        r.fail(prop, "anchor-missing generate_imports", "not found")
+        return r
+    # the key: fields of the element read inside the closure handed to `.map(..)` on the chain that ends in `.collect`
+    key_fields, read, found_map = set(), set(), False
+    for e in S.events(fn, "field"):
+        if S.squash(e.get("base", "")) != "dep":
+            continue
+        in_closure = any(c["k"] == "closure" for c in e["ctx"])
+        in_map = any(c["k"] == "arg" and S.squash(str(c.get("of", ""))).endswith(".map") for c in e["ctx"])
+        in_collect = any(c["k"] == "recv" and S.squash(str(c.get("of", ""))).endswith(".collect") for c in e["ctx"])
+        if in_closure and in_map and in_collect:
+            found_map = True
+            key_fields.add(S.squash(e["member"]))
+        elif not in_closure:
+            read.add(S.squash(e["member"]))
+    if not found_map:
+        r.fail(prop, "anchor-missing dedup key", "no `.map(|dep| (key, dep)).collect()` chain found in generate_imports()", fn["file"], fn["line"])
+        return r
+    read -= {"type_id"}          # only used to drop the type itself, before the key is built
+    missing = sorted(read - key_fields)
+    r.inst(fn=fn["qual"], key_fields=sorted(key_fields), fields_read_by_import_loop=sorted(read), missing=missing)
+    if missing:
+        r.fail(prop, "dedup-key-incomplete generate_imports missing=%s" % ",".join(missing),
+               "dependencies are de-duplicated under a key made of %s, but the loop also reads %s: two dependencies with the same name in different files (`api::Item`, `db::Item`) collapse to whichever was visited last, and the visit order of the derive's HashSet differs from one compilation to the next" % (sorted(key_fields), missing),
+               fn["file"], fn["line"])
+    r.floor = 1
+    return r
